@@ -14,6 +14,15 @@ def _first_param(fn):
     return a[0].arg if a else None
 
 
+def _fields_call(it, c):
+    """the dataclasses.fields(<class>) call inside a loop's iterable (the iterable itself, or
+    wrapped: sorted(...), reversed(...), a filter)"""
+    for n in ast.walk(it):
+        if isinstance(n, ast.Call) and pmatch(n, 'dataclasses.fields(?c)', {'c': c}) is not None:
+            return n
+    return None
+
+
 def _registration_function(ctx, mod):
     """the function that partitions the fields and registers the class (dataclass() itself, or a
     helper it delegates to)"""
@@ -22,8 +31,7 @@ def _registration_function(ctx, mod):
         if '.' in q:
             continue
         c = _first_param(f)
-        if c and any(isinstance(s, ast.For) and pmatch(s.iter, 'dataclasses.fields(?c)', {'c': c})
-                     for s in f.body):
+        if c and any(isinstance(s, ast.For) and _fields_call(s.iter, c) is not None for s in f.body):
             cands.append((q, f))
     ctx.require(len(cands) == 1, 'optree.dataclasses: %d functions partition dataclasses.fields(<class>)'
                 % len(cands))
@@ -56,10 +64,16 @@ def dc1(ctx):
     mod = pkg.mod('optree.dataclasses')
     fn, fq = _registration_function(ctx, mod)
     cls = _first_param(fn)
-    loop = [s for s in fn.body if isinstance(s, ast.For) and pmatch(s.iter, 'dataclasses.fields(?c)', {'c': cls})]
+    loop = [s for s in fn.body if isinstance(s, ast.For) and _fields_call(s.iter, cls) is not None]
     ctx.require(len(loop) == 1 and isinstance(loop[0].target, ast.Name),
                 'partition loop over dataclasses.fields(<class>) not found')
     lp = loop[0]
+    ctx.check('dataclass/declaration-order', _fields_call(lp.iter, cls) is lp.iter,
+              'the fields are walked as dataclasses.fields() returns them: children, entries and '
+              'metadata follow the declaration order',
+              'the partition loop walks `%s`, not dataclasses.fields(<class>) itself: children and '
+              'path entries no longer follow the declaration order of the fields' % src(lp.iter),
+              mod.loc(lp))
     env = {'f': lp.target.id, 'c': cls}
     top = lp.body[0] if lp.body else None
     ok = isinstance(top, ast.If)
